@@ -26,7 +26,10 @@ RULE = ('two case kinds. enum: corpus files that compile, re-encoded (LF / CRLF 
         'binding classification read off stdlib ast; every returned Name passes the position '
         'monitor. online: C01-style mutated texts x positions x all query methods, every '
         'returned object pointing into the buffer passes the position monitor (text at '
-        'line/column == name, range encloses, get_line_code() == that line). Non-trivial: at '
+        'line/column == name, range encloses, get_line_code() == that line). project: a generated '
+        'three-file project (dataclasses inheriting fields across files, classes, functions) and a '
+        'buffer with call / completion probes: results pointing into the other project files are '
+        'checked against those files. Non-trivial: at '
         'least 10 positions checked; distinct by text digest.')
 ASSUMPTIONS = c01.ASSUMPTIONS + ['CPython 3.12 tokenize/ast as ground truth for tokens and binding',
                                  'del targets and global/nonlocal names: either answer accepted']
@@ -54,8 +57,72 @@ def plan(tier, seed):
     for i in range(max(8, n_online // 10)):
         specs.append({'id': 'c17h-%d' % i, 'kind': 'history', 'length': 10 if tier == 'quick' else 30,
                       'seed': '%s/C17/h%d' % (seed, i)})
+    # multi-file projects: results that point into OTHER project files (signatures, params,
+    # completions, goto targets) are checked against the text of the file they name
+    for i in range(12 if tier == 'quick' else 120):
+        specs.append({'id': 'c17p-%d' % i, 'kind': 'project', 'seed': '%s/C17/p%d' % (seed, i)})
     specs += WITNESSES
     return specs
+
+
+def run_project(spec):
+    from vf.driver import digest
+    rnd = random.Random(spec['seed'])
+    rec = apimon.Recorder()
+    root = os.path.join(os.environ.get('VERIF_RUN_DIR', '/var/tmp'), 'c17-' + spec['id'])
+    os.makedirs(os.path.join(root, 'pkg'), exist_ok=True)
+
+    def pad(lo=0, hi=6):
+        return ['# filler %d' % k if rnd.random() < 0.5 else '' for k in range(rnd.randint(lo, hi))]
+    dc = rnd.choice(['from dataclasses import dataclass', 'import dataclasses\ndataclass = dataclasses.dataclass'])
+    base = pad() + [dc, ''] + pad() + [
+        '@dataclass', 'class Base:', '    identifier: int'] + pad(0, 2) + ["    revision: str = 'r'", '',
+        '    def describe(self, verbose=False):', '        return self.identifier', ''] + pad() + [
+        'class Shape:', '    sides = 4', '', '    def __init__(self, width, height=1):',
+        '        self.width = width', '        self.height = height', '',
+        '    def area(self, scale=1, *, unit=None):', '        return self.width * self.height * scale', ''] + pad() + [
+        'def helper(first, second=2, *rest, key=None, **extra):', '    return first', '']
+    models = pad(1, 8) + ['from base import Base, Shape', dc, ''] + pad() + [
+        '@dataclass', 'class Child(Base):', "    label: str = ''"] + pad(0, 3) + ['    weight: float = 1.0', '',
+        '    def label_len(self):', '        return len(self.label)', ''] + pad() + [
+        '@dataclass', 'class GrandChild(Child):', '    extra_field: int = 0', ''] + pad() + [
+        'class Square(Shape):', '    def __init__(self, side):', '        super().__init__(side, side)', '',
+        '    def diagonal(self, precision=2):', '        return self.width', ''] + pad() + [
+        'def make(kind, *parts, **options):', '    return Square(1)', '']
+    files = {'base.py': '\n'.join(base) + '\n', 'pkg/__init__.py': '', 'pkg/models.py': '\n'.join(models) + '\n'}
+    main_lines = pad(0, 4) + ['import sys', 'from base import helper, Shape, Base', 'from pkg.models import Child, GrandChild, Square, make',
+                              'from pkg import models', '']
+    probes = ['Child(', 'GrandChild(', 'Child(lab', 'GrandChild(ident', 'helper(', 'helper(1, ke', 'Shape(',
+              'Square(3).', 'Square(3).area(', 'Square(3).diagonal(', 'models.make(', 'make(1).ar',
+              'Child(1).describe(', 'GrandChild(1).label_len', 'Base', 'models.Child', 'Shape(1).wid',
+              'models.GrandChild(1).rev']
+    rnd.shuffle(probes)
+    pos = []
+    for pr in probes[:12]:
+        main_lines += pad(0, 1)
+        main_lines.append(pr)
+        pos.append((len(main_lines), len(pr)))
+    text = '\n'.join(main_lines) + '\n'
+    extra = {}
+    for rel, t in files.items():
+        fp = os.path.join(root, rel)
+        with open(fp, 'w') as f:
+            f.write(t)
+        extra[fp] = t
+    path = os.path.join(root, 'main.py')
+    with open(path, 'w') as f:
+        f.write(text)
+    project = jedi.Project(root)
+    sweepwl.run_text(rec, text, path, pos, project=project, extra_texts=extra,
+                     methods=['get_signatures', 'complete', 'infer', 'goto', 'goto_follow', 'help',
+                              'get_references', 'get_names'],
+                     witness={'case': spec['id'], 'files': files, 'main': text}, deep=True, cap=60)
+    vio = [v for v in rec.violations if v['key'].startswith('c17')]
+    return {'id': spec['id'], 'digest': digest([files, text]), 'violations': vio,
+            'events': {k: v for k, v in rec.events.items() if not k.startswith('call:')},
+            'nontrivial': rec.events.get('c17:positions_checked', 0) >= 10,
+            'sample': {'case': spec['id'], 'kind': 'project', 'files': sorted(files),
+                       'positions_checked': rec.events.get('c17:positions_checked', 0)}}
 
 
 # Witnesses of the listed known findings: run on every invocation so that the finding is
@@ -153,6 +220,8 @@ def run_history(spec):
 def run(spec):
     if spec['kind'] == 'history':
         return run_history(spec)
+    if spec['kind'] == 'project':
+        return run_project(spec)
     if spec['kind'] != 'enum':
         return run_online(spec)
     from vf.driver import digest
